@@ -165,6 +165,10 @@ def specWithFeatures (s : Dep.Spec) (fs : List String) : Dep.Spec :=
 /-- `without_features()` -/
 def specWithoutFeatures (s : Dep.Spec) : Dep.Spec := specWithFeatures s []
 
+/-- `Dependency.with_features` / `without_features` (inherited: the clone keeps constraint, marker, …) -/
+def depWithFeatures (d : Dep.Dep) (fs : List String) : Dep.Dep := { d with spec := specWithFeatures d.spec fs }
+def depWithoutFeatures (d : Dep.Dep) : Dep.Dep := depWithFeatures d []
+
 /-- `Dependency.__hash__` is the specification's (the constraint is mutable and left out) -/
 def depHash (d : Dep.Dep) : HIn := specHash d.spec
 
